@@ -212,6 +212,25 @@ def AdmissibleRun : Mgr → List Ev → Prop
   | _, [] => True
   | m, e :: es => Admissible m e ∧ AdmissibleRun (m.step e) es
 
+/-! ### mgr_createscene.go: `SpawnScene` (used by the public-scene keeper) -/
+
+/-- outcome of the `scene.remote.allocscene` request -/
+inductive Reply where
+  | ok | err
+  deriving DecidableEq, Repr
+
+/-- The events one `SpawnScene(cfg)` amounts to, given the service `AllocScene` chose and how the
+request ended (`none`: never answered).  The scene id is consumed in every case; the scene is
+registered only when the scene service confirmed it (`if err != nil { …; return }`). -/
+def spawnEvents (m : Mgr) (cfg svc : Nat) : Option Reply → List Ev
+  | some .ok => [.alloc, .create m.nextId cfg svc]
+  | _ => [.alloc]
+
+/-- the same with the `return` missing (seeded mutation C19-ind2-m3): a failed request registers the scene too -/
+def spawnEventsNoReturn (m : Mgr) (cfg svc : Nat) : Option Reply → List Ev
+  | none => [.alloc]
+  | some _ => [.alloc, .create m.nextId cfg svc]
+
 /-! ### the pre-hypothesis behaviour, kept executable: a second create-success for
 a live scene id leaks the first line (used by a witness theorem) -/
 def dupCreateWorld : World := (World.empty.onCreateSucc 7 100 1).onCreateSucc 7 100 1
